@@ -29,11 +29,11 @@ def prove_core(ctx, prop):
     from harness.common import coq_make
     ctx.extra['model_ok'] = True
     try:
-        ctx.prove(prop, extra_targets=['theories/Core/Corr.vo', 'theories/Core/Cost.vo'])
+        ctx.prove(prop, extra_targets=['theories/Core/Corr.vo', 'theories/Core/Cost.vo', 'theories/Core/Override.vo'])
         return None
     except CoqFailure as e:
         try:
-            coq_make(['theories/Core/Corr.vo'])
+            coq_make(['theories/Core/Corr.vo', 'theories/Core/Override.vo'])
         except CoqFailure:
             ctx.extra['model_ok'] = False
         return e
